@@ -1,11 +1,12 @@
 """
 Engine V -- variable-namespace discipline (parent statistic names PV vs child statistic
 names CV, and the two position spaces) in the constructors and in the derived
-constructors of rule.py.  DESIGN.md section 3 (engine V), appendix C.  Used by C09 and C20.
+constructors of rule.py.  DESIGN.md section 3 (engine V).  Used by C09, C20, C07, C08.
 
 Kinds are assigned *positionally*: iterating `<PV->CV table>.items()` binds (PV, CV)
 whatever the loop variables are called; `enumerate(X.extra_parameters)` binds (position,
-name) of X's namespace.  Each rule then checks which role is used where.
+name).  Local variables are never referred to by name: rules use structural patterns with
+metavariables (core/pattern.py) and bind locals through their role.
 """
 from __future__ import annotations
 
@@ -14,6 +15,7 @@ from typing import Dict, List, Optional, Tuple
 
 from ..core import control as C
 from ..core import dataflow as D
+from ..core import pattern as PT
 from ..core.program import AnalysisError, AnchorError, is_self_attr, norm, parent, walk_local
 
 BUILDERS = (
@@ -41,6 +43,27 @@ def _items_loops(node: ast.AST) -> List[Tuple[ast.AST, str, str, str]]:
     return out
 
 
+def _resolved(f, e: ast.AST) -> ast.AST:
+    for _ in range(5):
+        if isinstance(e, ast.Name) and parent(e) is not None:
+            r = D.reaching_value(f, e, e.id)
+            if r is None:
+                return e
+            e = r[1]
+        else:
+            return e
+    return e
+
+
+def _assigned_name(node: ast.AST) -> Optional[str]:
+    """Name a value expression is (directly) assigned to."""
+    p = parent(node)
+    t, v = PT.assign_value(p) if p is not None else (None, None)
+    if v is node and isinstance(t, ast.Name):
+        return t.id
+    return None
+
+
 # ------------------------------------------------------------------------ V1
 def v1_children_map_builders(ctx) -> None:
     P = ctx.P
@@ -48,8 +71,6 @@ def v1_children_map_builders(ctx) -> None:
         m = P.need_method(cname, mname, own=True)
         f = m.node
         ctx.analysed(m)
-        params = m.params()
-        # the per-child loop: zip(children[, enumerate], tables)
         outer = [l for l in f.body if isinstance(l, ast.For)]
         if len(outer) != 1:
             raise AnalysisError(f"V1: {m.qualname} no longer has one loop over the children")
@@ -64,66 +85,68 @@ def v1_children_map_builders(ctx) -> None:
             continue
         child_t = loop.target.elts[0]
         child = norm(child_t.elts[1]) if isinstance(child_t, ast.Tuple) else norm(child_t)
+        idx_var = norm(child_t.elts[0]) if isinstance(child_t, ast.Tuple) else None
         table = norm(loop.target.elts[1])
         ctx.ok("V1", f"{m.qualname}: table i is paired with child i")
-        # parent positions
-        t = norm(f)
-        if "{param: pos for pos, param in enumerate(parent.extra_parameters)}" in t and "len(parent.extra_parameters)" in t:
+        # parent names -> parent positions
+        pp = PT.find_all(f, "{_M_a: _M_b for _M_b, _M_a in enumerate(parent.extra_parameters)}")
+        ppos = _assigned_name(pp[0][0]) if pp else None
+        # the call that builds the map: (table, count)
+        builds = [c for c in walk_local(f) if isinstance(c, ast.Call) and isinstance(c.func, ast.Attribute) and c.func.attr == "build_param_map" and len(c.args) == 2]
+        cnt_ok = bool(builds) and all(norm(_resolved(f, c.args[1])) == "len(parent.extra_parameters)" for c in builds)
+        if ppos and cnt_ok:
             ctx.ok("V1", f"{m.qualname}: parent names -> parent positions, count = number of parent parameters")
         else:
-            ctx.violation("V1", f, f"{m.qualname}: parent_param_to_pos must map the parent's own parameter names to their positions and the map count "
-                          "must be len(parent.extra_parameters)", construct=f"{m.qualname} parent positions")
-        # the inverse table: fresh per child, keyed by the child's name, accumulating parent names
-        inv_assign = [n for n in walk_local(f) if isinstance(n, (ast.Assign, ast.AnnAssign)) and
-                      isinstance(n.value, ast.Call) and norm(n.value.func) == "defaultdict" and n.value.args and norm(n.value.args[0]) == "list"]
+            ctx.violation("V1", f, f"{m.qualname}: the map must be built from a {{parent name: position}} table over parent.extra_parameters and sized "
+                          "len(parent.extra_parameters)", construct=f"{m.qualname} parent positions")
+            continue
+        # the inverse table: fresh per child, keyed by the child's name, collecting parent names
         items = [x for x in _items_loops(loop) if x[1] == table]
         if not items:
             ctx.violation("V1", loop, f"{m.qualname}: the child's table is no longer inverted by walking `{table}.items()`")
             continue
         node, _, pv, cv = items[0]
         inv_name = None
-        multi = False
         if isinstance(node, ast.For):
             for c in walk_local(node):
-                if isinstance(c, ast.Call) and isinstance(c.func, ast.Attribute) and c.func.attr == "append" and isinstance(c.func.value, ast.Subscript):
-                    inv_name = norm(c.func.value.value)
-                    key, val = norm(c.func.value.slice), norm(c.args[0]) if c.args else "?"
-                    multi = True
+                if isinstance(c, ast.Call) and isinstance(c.func, ast.Attribute) and c.func.attr == "append" and isinstance(c.func.value, ast.Subscript) \
+                        and isinstance(c.func.value.value, ast.Name) and c.args:
+                    inv_name = c.func.value.value.id
+                    key, val = norm(c.func.value.slice), norm(c.args[0])
                     if key == cv and val == pv:
                         ctx.ok("V1", f"{m.qualname}: inverse table is keyed by the child's name and collects every parent name mapped to it")
                     else:
                         ctx.violation("V1", c, f"{m.qualname}: `{norm(c)}` -- the inverse table must be keyed by the child's name (second component of "
                                       f"`{table}.items()`) and collect the parent's names (first component)")
-        if not multi:
+        if inv_name is None:
             ctx.violation("V1", node if isinstance(node, ast.For) else parent(node),
                           f"{m.qualname}: the inverse of the parent->child table is built by overwriting, not by collecting: when several parent "
                           "statistics map onto one child statistic all but one are silently dropped")
             continue
-        # fresh per child
-        fresh = [n for n in inv_assign if C.stmt_of(n) in loop.body]
-        tgt_names = {norm((n.targets[0] if isinstance(n, ast.Assign) else n.target)) for n in inv_assign}
-        if inv_name in tgt_names and fresh:
+        fresh = [st for st in loop.body if isinstance(st, (ast.Assign, ast.AnnAssign)) and PT.assign_value(st)[0] is not None
+                 and norm(PT.assign_value(st)[0]) == inv_name and PT.assign_value(st)[1] is not None
+                 and norm(PT.assign_value(st)[1]) in ("defaultdict(list)", "collections.defaultdict(list)")]
+        if fresh:
             ctx.ok("V1", f"{m.qualname}: a fresh inverse table per child")
         else:
-            ctx.violation("V1", loop, f"{m.qualname}: the inverse table `{inv_name}` is not re-created for each child: names inherited from an earlier child "
-                          "leak into the maps of the later ones")
+            ctx.violation("V1", loop, f"{m.qualname}: the inverse table `{inv_name}` is not re-created (defaultdict(list)) for each child: names inherited "
+                          "from an earlier child leak into the maps of the later ones")
         # child positions -> parent positions, in the order of the child's own parameters
-        comp = [n for n in walk_local(loop) if isinstance(n, ast.GeneratorExp) and len(n.generators) == 1
-                and norm(n.generators[0].iter) == f"{child}.extra_parameters"]
         okc = False
-        for g in comp:
-            cp = norm(g.generators[0].target)
-            et = norm(g.elt)
-            if f"parent_param_to_pos.__getitem__, {inv_name}[{cp}]" in et:
-                okc = True
+        for g in walk_local(loop):
+            if isinstance(g, ast.GeneratorExp) and len(g.generators) == 1 and norm(g.generators[0].iter) == f"{child}.extra_parameters":
+                cp = norm(g.generators[0].target)
+                if PT.find_all(g.elt, "map(_M_pp.__getitem__, _M_inv[_M_cp])", {"_M_pp": ppos, "_M_inv": inv_name, "_M_cp": cp}, local=False):
+                    okc = True
         if okc:
             ctx.ok("V1", f"{m.qualname}: for each position of the child's own parameters, the parent positions of the names mapped onto it")
         else:
-            ctx.violation("V1", loop, f"{m.qualname}: child_pos_to_parent_pos must range over {child}.extra_parameters (child positions) and translate "
-                          f"`{inv_name}[child name]` through parent_param_to_pos", construct=f"{m.qualname} position table")
+            ctx.violation("V1", loop, f"{m.qualname}: the position table must range over {child}.extra_parameters (child positions) and translate "
+                          f"`{inv_name}[child name]` through the parent's name->position table", construct=f"{m.qualname} position table")
         if cname == "Complement":
             conts = [n for n in walk_local(loop) if isinstance(n, ast.Continue)]
-            if conts and all(any(t2 in (("idx == self.idx", True), ("self.idx == idx", True)) for t2 in C.guard_texts(f, c)) for c in conts):
+            want = {(f"{idx_var} == self.idx", True), (f"self.idx == {idx_var}", True)}
+            if idx_var and conts and all(C.guard_texts(f, c) & want for c in conts):
                 ctx.ok("V1", "Complement: exactly the flipped child has no map (its terms are the ones being computed)")
             else:
                 ctx.violation("V1", loop, "Complement._build_children_param_maps must skip exactly the child at self.idx")
@@ -136,7 +159,6 @@ def v2_parent_map_builders(ctx) -> None:
         m = P.need_method(cname, "_build_parent_param_map", own=True)
         f = m.node
         ctx.analysed(m)
-        t = norm(f)
         idx_ok = all(x in ("idx", "self.idx") for x in _subs_of(f, "self.extra_parameters") + _subs_of(f, "children"))
         if idx_ok and _subs_of(f, "self.extra_parameters") and _subs_of(f, "children"):
             ctx.ok("V2", f"{cname}._build_parent_param_map: table and class of the same flipped child")
@@ -151,17 +173,10 @@ def v2_parent_map_builders(ctx) -> None:
 
 
 def _name_to_pos_dict(f, name: str) -> Optional[str]:
-    """If `name` is {p: i for i, p in enumerate(X.extra_parameters)} return X."""
-    for n in walk_local(f):
-        if isinstance(n, (ast.Assign, ast.AnnAssign)):
-            tg = n.targets[0] if isinstance(n, ast.Assign) else n.target
-            if norm(tg) == name and isinstance(n.value, ast.DictComp) and len(n.value.generators) == 1:
-                g = n.value.generators[0]
-                if isinstance(g.iter, ast.Call) and norm(g.iter.func) == "enumerate" and len(g.iter.args) == 1 \
-                        and isinstance(g.iter.args[0], ast.Attribute) and g.iter.args[0].attr == "extra_parameters" \
-                        and isinstance(g.target, ast.Tuple) and len(g.target.elts) == 2 \
-                        and norm(n.value.key) == norm(g.target.elts[1]) and norm(n.value.value) == norm(g.target.elts[0]):
-                    return norm(g.iter.args[0].value)
+    """If `name` is {p: i for i, p in enumerate(X.extra_parameters)} return text of X."""
+    for n, b in PT.find_all(f, "{_M_a: _M_b for _M_b, _M_a in enumerate(_E_owner.extra_parameters)}"):
+        if _assigned_name(n) == name:
+            return b["_E_owner"]
     return None
 
 
@@ -179,6 +194,9 @@ def _parent_to_child_table(f) -> Tuple[bool, str]:
     if not (isinstance(test, ast.Compare) and len(test.ops) == 1 and isinstance(test.ops[0], ast.In) and norm(test.left) == pv):
         return False, f"the entry must be conditional on `{pv} in <table of the flipped child>`"
     table = norm(test.comparators[0])
+    tsrc = _resolved(f, test.comparators[0])
+    if not (isinstance(tsrc, ast.Subscript) and norm(tsrc.value) == "self.extra_parameters"):
+        return False, "the table consulted must be the flipped child's own table (self.extra_parameters[idx])"
     body = elt.body
     if not (isinstance(body, ast.Tuple) and len(body.elts) == 1 and isinstance(body.elts[0], ast.Subscript)):
         return False, "a mapped parent parameter must give exactly one child position"
@@ -189,13 +207,19 @@ def _parent_to_child_table(f) -> Tuple[bool, str]:
     owner = _name_to_pos_dict(f, norm(sub.value))
     if owner is None:
         return False, f"`{norm(sub.value)}` must map the child's own parameter names to their positions"
+    osrc = None
+    for n in walk_local(f):
+        t, v = PT.assign_value(n)
+        if t is not None and norm(t) == owner and v is not None:
+            osrc = v
+    if osrc is None or not (isinstance(osrc, ast.Subscript) and norm(osrc.value) == "children"):
+        return False, "the class whose positions are used must be the flipped child (children[idx])"
     empty = elt.orelse
     if not ((isinstance(empty, ast.Tuple) and not empty.elts) or (isinstance(empty, ast.Call) and norm(empty.func) == "tuple" and not empty.args)):
         return False, "an unmapped parent parameter must give the empty tuple"
     rets = [r for r in C.returns_of(f) if r.value is not None and isinstance(r.value, ast.Call)]
-    if not rets or len(rets[0].value.args) != 2 or norm(rets[0].value.args[1]) != f"len({owner}.extra_parameters)":
+    if not rets or len(rets[0].value.args) != 2 or norm(_resolved(f, rets[0].value.args[1])) != f"len({owner}.extra_parameters)":
         return False, f"the size of the target namespace must be len({owner}.extra_parameters) (the flipped child's parameters)"
-    # the child whose positions are used is the flipped one
     return True, ""
 
 
@@ -204,37 +228,70 @@ def _subs_of(f, base: str) -> List[str]:
 
 
 # ------------------------------------------------------------------------ V3
+def _zip_loops(f, want: set) -> List[ast.For]:
+    out = []
+    for l in walk_local(f):
+        if isinstance(l, ast.For) and isinstance(l.iter, ast.Call) and norm(l.iter.func) == "zip" and len(l.iter.args) == 2 \
+                and isinstance(l.target, ast.Tuple) and len(l.target.elts) == 2:
+            args = {norm(_resolved(f, a)) for a in l.iter.args}
+            if args == want:
+                out.append(l)
+    return out
+
+
+def _zip_roles(f, loop: ast.For, first_text: str) -> Tuple[str, str]:
+    """Names of the loop targets bound to (the argument whose resolved text is first_text,
+    the other one)."""
+    a = [norm(_resolved(f, x)) for x in loop.iter.args]
+    t = [norm(x) for x in loop.target.elts]
+    i = a.index(first_text)
+    return t[i], t[1 - i]
+
+
 def v3_map_uses(ctx) -> None:
     P = ctx.P
     # union
     m = P.need_method("DisjointUnion", "get_terms", own=True)
-    t = norm(m.node)
+    f = m.node
     ctx.analysed(m)
-    if "zip(subterms, self._children_param_maps)" in t and "new_terms[param_map(param)] += value" in t:
+    loops = _zip_loops(f, {"subterms", "self._children_param_maps"})
+    ok = False
+    if loops:
+        ct, pm = _zip_roles(f, loops[0], "subterms")
+        ok = PT.has(loops[0], "for _M_p, _M_v in _M_ct(n).items():\n    _M_T[_M_pm(_M_p)] += _M_v", {"_M_ct": ct, "_M_pm": pm})
+    if ok:
         ctx.ok("V3", "DisjointUnion.get_terms: child i's terms are re-keyed through child i's map")
     else:
-        ctx.violation("V3", m.node, "DisjointUnion.get_terms must pair subterms with self._children_param_maps positionally and add each value under param_map(param)",
+        ctx.violation("V3", f, "DisjointUnion.get_terms must pair subterms with self._children_param_maps positionally and add each value under map_i(param)",
                       construct="DisjointUnion.get_terms maps")
     # complement
     m = P.need_method("Complement", "get_terms", own=True)
-    t = norm(m.node)
+    f = m.node
     ctx.analysed(m)
-    ok = ("subterms[0](n)" in t and "self._parent_param_map(param)" in t and "subterms[1:]" in t
-          and "zip(children_terms, self._children_param_maps)" in t and "self._parent_param_map(param_map(param))" in t)
-    if ok:
+    ok_parent = bool(PT.find_all(f, "subterms[0](n)")) and bool(PT.find_all(f, "_M_T[self._parent_param_map(_M_p)] += _M_v"))
+    loops = _zip_loops(f, {"subterms[1:]", "self._children_param_maps"})
+    ok_sib = False
+    if loops:
+        ct, pm = _zip_roles(f, loops[0], "subterms[1:]")
+        ok_sib = bool(PT.find_all(loops[0], "self._parent_param_map(_M_pm(_M_p))", {"_M_pm": pm})) and \
+            bool(PT.find_all(loops[0], "_M_ct(n)", {"_M_ct": ct}))
+    if ok_parent and ok_sib:
         ctx.ok("V3", "Complement.get_terms: parent terms through the parent map; sibling i (subterms[1:]) through sibling i's map then the parent map")
     else:
-        ctx.violation("V3", m.node, "Complement.get_terms must map the original parent's terms with _parent_param_map and each sibling's (subterms[1:], aligned with "
-                      "_children_param_maps, which has no entry for the flipped child) with _parent_param_map(param_map(param))", construct="Complement.get_terms maps")
+        ctx.violation("V3", f, "Complement.get_terms must map the original parent's terms with _parent_param_map and each sibling's (subterms[1:], aligned with "
+                      "_children_param_maps, which has no entry for the flipped child) with _parent_param_map(map_i(param))", construct="Complement.get_terms maps")
     # products
     for cname in ("CartesianProduct", "Quotient"):
         m = P.need_method(cname, "_new_param", own=True)
-        t = norm(m.node)
+        f = m.node
         ctx.analysed(m)
-        if "zip(self._children_param_maps, children_params)" in t and "tuple((sum(vals) for vals in zip(*mapped_params)))" in t:
+        g = PT.find_all(f, "(_M_pm(_M_p) for _M_pm, _M_p in zip(self._children_param_maps, children_params))")
+        mp = _assigned_name(g[0][0]) if g else None
+        ok = bool(g) and mp is not None and PT.has(f, "tuple((sum(_M_v) for _M_v in zip(*_M_mp)))", {"_M_mp": mp})
+        if ok:
             ctx.ok("V3", f"{cname}._new_param: child i's parameters through child i's map, summed position-wise")
         else:
-            ctx.violation("V3", m.node, f"{cname}._new_param must pair self._children_param_maps with the children's parameters positionally and sum position-wise",
+            ctx.violation("V3", f, f"{cname}._new_param must pair self._children_param_maps with the children's parameters positionally and sum position-wise",
                           construct=f"{cname}._new_param")
     m = P.need_method("Quotient", "_other_new_param", own=True)
     f = m.node
@@ -242,32 +299,34 @@ def v3_map_uses(ctx) -> None:
     zips = [c for c in walk_local(f) if isinstance(c, ast.Call) and norm(c.func) == "zip" and len(c.args) == 2 and norm(c.args[1]) == "children_params"]
     good = False
     if zips:
-        src = zips[0].args[0]
-        if isinstance(src, ast.Name):
-            r = D.reaching_value(f, src, src.id)
-            src = r[1] if r is not None else src
-        st = norm(src)
-        good = st in ("(m for i, m in enumerate(self._children_param_maps) if i != self.idx)",
-                      "[m for i, m in enumerate(self._children_param_maps) if i != self.idx]",
-                      "self._children_param_maps[:self.idx] + self._children_param_maps[self.idx + 1:]")
+        src = _resolved(f, zips[0].args[0])
+        good = any(PT.match(PT.compile_pattern(p), src) is not None for p in (
+            "(_M_m for _M_i, _M_m in enumerate(self._children_param_maps) if _M_i != self.idx)",
+            "[_M_m for _M_i, _M_m in enumerate(self._children_param_maps) if _M_i != self.idx]",
+            "self._children_param_maps[:self.idx] + self._children_param_maps[self.idx + 1:]"))
     if good:
         ctx.ok("V3", "Quotient._other_new_param: the maps of every child except the flipped one, in order")
     else:
         ctx.violation("V3", f, "Quotient._other_new_param must pair the other children's parameters with the maps of every child except exactly self.idx, in order",
                       construct="Quotient._other_new_param maps")
     m = P.need_method("Quotient", "get_terms", own=True)
-    if "self._parent_param_map(param)" in norm(m.node):
+    if PT.has(m.node, "self._parent_param_map(_M_p)"):
         ctx.ok("V3", "Quotient.get_terms re-keys the quotient's terms into the flipped child's own parameters")
     else:
         ctx.violation("V3", m.node, "Quotient.get_terms must map each parameter tuple with self._parent_param_map", construct="Quotient.get_terms map")
-    # a map applied to positions: child positions index the table, parent positions are written
+    # a map applied to positions: source positions index the table, target positions are written
     for cname in ("Constructor", "DisjointUnion", "Quotient"):
         m = P.need_method(cname, "param_map", own=True)
-        t = norm(m.node)
-        if "for pos, value in enumerate(param)" in t and "child_pos_to_parent_pos[pos]" in t and "range(num_parent_params)" in t:
+        f = m.node
+        loops = [l for l in walk_local(f) if isinstance(l, ast.For) and norm(l.iter) == "enumerate(param)" and isinstance(l.target, ast.Tuple)]
+        ok = False
+        if loops:
+            pos = norm(loops[0].target.elts[0])
+            ok = bool(PT.find_all(loops[0], "child_pos_to_parent_pos[_M_pos]", {"_M_pos": pos})) and bool(PT.find_all(f, "range(num_parent_params)"))
+        if ok:
             ctx.ok("V3", f"{cname}.param_map reads the table at the source position and writes target positions")
         else:
-            ctx.violation("V3", m.node, f"{cname}.param_map must index the table by the source position and size its result by the target count", construct=f"{cname}.param_map")
+            ctx.violation("V3", f, f"{cname}.param_map must index the table by the source position and size its result by the target count", construct=f"{cname}.param_map")
 
 
 # ------------------------------------------------------------------------ V4
@@ -276,32 +335,49 @@ def v4_parameter_translation(ctx) -> None:
     m = P.need_method("DisjointUnion", "get_extra_parameters", own=True)
     f = m.node
     ctx.analysed(m)
-    loops = [l for l in walk_local(f) if isinstance(l, ast.For) and norm(l.iter) == "enumerate(self.extra_parameters)"]
-    items = _items_loops(f)
-    if not loops or not items:
-        raise AnalysisError("V4: DisjointUnion.get_extra_parameters loops not found")
-    i = norm(loops[0].target.elts[0])
-    _, table, pv, cv = items[0]
-    t = norm(f)
-    ok = (f"parameters[{pv}]" in t and f"update_params[{cv}]" in t and f"self.fixed_values[{i}]" in t and table == norm(loops[0].target.elts[1]))
-    bad = f"parameters[{cv}]" in t or f"update_params[{pv}]" in t
-    if ok and not bad:
-        ctx.ok("V4", "DisjointUnion.get_extra_parameters: the parent's values are read by parent name and stored under the child's name; fixed values of the same child")
+    loops = [l for l in walk_local(f) if isinstance(l, ast.For) and norm(l.iter) == "enumerate(self.extra_parameters)" and isinstance(l.target, ast.Tuple)]
+    if not loops:
+        raise AnalysisError("V4: DisjointUnion.get_extra_parameters no longer walks enumerate(self.extra_parameters)")
+    i, tab = norm(loops[0].target.elts[0]), norm(loops[0].target.elts[1])
+    items = [x for x in _items_loops(loops[0]) if x[1] == tab]
+    if not items:
+        ctx.violation("V4", f, "DisjointUnion.get_extra_parameters no longer walks the child's table", construct="DisjointUnion.get_extra_parameters items")
     else:
-        ctx.violation("V4", f, "DisjointUnion.get_extra_parameters must read parameters[<parent name>] and write update_params[<child name>] (components of "
-                      "table.items() in that order), starting from self.fixed_values of the same child", construct="DisjointUnion.get_extra_parameters")
+        _, _, pv, cv = items[0]
+        reads_p = bool(PT.find_all(loops[0], "parameters[_M_pv]", {"_M_pv": pv}))
+        reads_c = bool(PT.find_all(loops[0], "parameters[_M_cv]", {"_M_cv": cv}))
+        stores = [n for n in walk_local(loops[0]) if isinstance(n, ast.Subscript) and isinstance(n.ctx, ast.Store) and isinstance(n.value, ast.Name)]
+        st_c = [n for n in stores if norm(n.slice) == cv]
+        st_p = [n for n in stores if norm(n.slice) == pv]
+        fixed = bool(PT.find_all(loops[0], "self.fixed_values[_M_i]", {"_M_i": i}))
+        if reads_p and not reads_c and st_c and not st_p and fixed:
+            ctx.ok("V4", "DisjointUnion.get_extra_parameters: the parent's values are read by parent name and stored under the child's name; fixed values of the same child")
+        else:
+            ctx.violation("V4", f, "DisjointUnion.get_extra_parameters must read parameters[<parent name>] and write <result>[<child name>] (components of "
+                          "table.items() in that order), starting from self.fixed_values of the same child", construct="DisjointUnion.get_extra_parameters")
     m = P.need_method("CartesianProduct", "get_extra_parameters", own=True)
-    t = norm(m.node)
+    f = m.node
     ctx.analysed(m)
-    if "zip(child_parameters, self.extra_parameters)" in t and "mapped_k = map_params[k]" in t and "extra_params[mapped_k] = params[k]" in t and "extra_params[mapped_k] != params[k]" in t:
+    loops = _zip_loops(f, {"child_parameters", "self.extra_parameters"})
+    ok = False
+    if loops:
+        pr, mp = _zip_roles(f, loops[0], "child_parameters")
+        inner = [l for l in walk_local(loops[0]) if isinstance(l, ast.For) and norm(l.iter) == mp]
+        if inner:
+            k = norm(inner[0].target)
+            mk = PT.find_all(inner[0], "_M_mk = _M_mp[_M_k]", {"_M_mp": mp, "_M_k": k})
+            if mk:
+                mkn = mk[0][1]["_M_mk"]
+                ok = PT.has(inner[0], "_M_ep[_M_mk] = _M_pr[_M_k]", {"_M_mk": mkn, "_M_pr": pr, "_M_k": k}) and \
+                    bool(PT.find_all(inner[0], "_M_ep[_M_mk] != _M_pr[_M_k]", {"_M_mk": mkn, "_M_pr": pr, "_M_k": k}))
+    if ok:
         ctx.ok("V4", "CartesianProduct.get_extra_parameters: child i's values re-keyed through child i's table, contradictions detected")
     else:
-        ctx.violation("V4", m.node, "CartesianProduct.get_extra_parameters must pair child_parameters with self.extra_parameters positionally and store params[k] under map_params[k]",
-                      construct="CartesianProduct.get_extra_parameters")
-    # counts are looked up by the rule's own class's parameter names
+        ctx.violation("V4", f, "CartesianProduct.get_extra_parameters must pair child_parameters with self.extra_parameters positionally and store values[k] under table[k], "
+                      "detecting contradictions", construct="CartesianProduct.get_extra_parameters")
     for mname in ("count_objects_of_size", "generate_objects_of_size"):
         m = P.need_method("AbstractRule", mname, own=True)
-        if "tuple((parameters[k] for k in self.comb_class.extra_parameters))" in norm(m.node):
+        if PT.has(m.node, "tuple((parameters[_M_k] for _M_k in self.comb_class.extra_parameters))"):
             ctx.ok("V4", f"AbstractRule.{mname} indexes by the class's own parameter order")
         else:
             ctx.violation("V4", m.node, f"AbstractRule.{mname} must build the key as tuple(parameters[k] for k in self.comb_class.extra_parameters)", construct=f"AbstractRule.{mname} key")
@@ -313,77 +389,99 @@ def v6_derived_constructors(ctx) -> None:
     m = P.need_method("EquivalenceRule", "constructor", own=True)
     f = m.node
     ctx.analysed(m)
-    t = norm(f)
-    if "original_constructor.extra_parameters[self.child_idx]" in t and "DisjointUnion(self.comb_class, self.children, (original_constructor.extra_parameters[self.child_idx],))" in t:
+    oc = PT.find_all(f, "_M_oc = self.original_rule.constructor")
+    ocn = oc[0][1]["_M_oc"] if oc else None
+    if ocn and PT.find_all(f, "DisjointUnion(self.comb_class, self.children, (_M_oc.extra_parameters[self.child_idx],))", {"_M_oc": ocn}):
         ctx.ok("V6", "EquivalenceRule: the union over the single non-empty child uses that child's own table (same index as the child)")
     else:
         ctx.violation("V6", f, "EquivalenceRule.constructor must build DisjointUnion(comb_class, children, (original.extra_parameters[self.child_idx],)) -- the table of the "
                       "very child that is kept", construct="EquivalenceRule.constructor union branch")
-    if ("original_original_rule.to_equivalence_rule().child_idx" in t and "original_original_constructor.extra_parameters[original_original_child_idx]" in t
-            and "Complement(self.children[0], (self.comb_class,), 0," in t):
+    okc = False
+    oor = PT.find_all(f, "_M_oor = self.original_rule.original_rule")
+    if oor:
+        b = {"_M_oor": oor[0][1]["_M_oor"]}
+        ci = PT.find_all(f, "_M_ci = _M_oor.to_equivalence_rule().child_idx", b)
+        ooc = PT.find_all(f, "_M_ooc = _M_oor.constructor", b)
+        if ci and ooc:
+            okc = bool(PT.find_all(f, "Complement(self.children[0], (self.comb_class,), 0, (_M_ooc.extra_parameters[_M_ci],))",
+                                   {"_M_ooc": ooc[0][1]["_M_ooc"], "_M_ci": ci[0][1]["_M_ci"]}))
+    if okc:
         ctx.ok("V6", "EquivalenceRule (reverse): complement of the one-child union, with the table of the kept child of the original rule")
     else:
         ctx.violation("V6", f, "EquivalenceRule.constructor (Complement branch) must be Complement(children[0], (comb_class,), 0, (table of the original rule's kept child,))",
                       construct="EquivalenceRule.constructor complement branch")
-    # path composition
+    # path composition ------------------------------------------------------------
     m = P.need_method("EquivalencePathRule", "constructor", own=True)
     f = m.node
     ctx.analysed(m)
-    t = norm(f)
-    if "{k: k for k in self.comb_class.extra_parameters}" in t:
+    ident = PT.find_all(f, "{_M_k: _M_k for _M_k in self.comb_class.extra_parameters}")
+    run = _assigned_name(ident[0][0]) if ident else None
+    if run:
         ctx.ok("V6", "path: the running map starts as the identity on the first class's parameters")
     else:
         ctx.violation("V6", f, "EquivalencePathRule.constructor must start from the identity on self.comb_class.extra_parameters", construct="EquivalencePathRule.constructor start")
-    # inversion exactly for Complement steps
-    inv = [n for n in walk_local(f) if isinstance(n, ast.Assign) and isinstance(n.value, ast.DictComp)
-           and _is_swap(n.value)]
+        return
+    steps = [l for l in walk_local(f) if isinstance(l, ast.For) and norm(l.iter) == "self.rules"]
+    if not steps:
+        ctx.violation("V6", f, "EquivalencePathRule.constructor no longer walks self.rules", construct="EquivalencePathRule.constructor steps")
+        return
+    step = steps[0]
+    rule_v = norm(step.target)
+    ocs = PT.find_all(step, "_M_oc = _M_r.constructor", {"_M_r": rule_v})
+    ocn = ocs[0][1]["_M_oc"] if ocs else None
+    rps = PT.find_all(step, "_M_rp = _M_oc.extra_parameters[0]", {"_M_oc": ocn}) if ocn else []
+    rpn = rps[0][1]["_M_rp"] if rps else None
+    if rpn:
+        ctx.ok("V6", "path: each (one-child) step contributes the table of its only child")
+    else:
+        ctx.violation("V6", f, "each step must contribute <step constructor>.extra_parameters[0]", construct="EquivalencePathRule.constructor step table")
+        return
+    want_guard = (f"isinstance({ocn}, Complement)", True)
+    inv = [n for n in walk_local(step) if isinstance(n, (ast.Assign, ast.AnnAssign)) and isinstance(PT.assign_value(n)[1], ast.DictComp)
+           and _is_swap(PT.assign_value(n)[1]) and norm(PT.assign_value(n)[0]) == rpn
+           and norm(PT.assign_value(n)[1].generators[0].iter) == f"{rpn}.items()"]
     if not inv:
         ctx.violation("V6", f, "EquivalencePathRule.constructor no longer inverts the table of a Complement step", construct="EquivalencePathRule.constructor inversion")
     for n in inv:
         gt = C.guard_texts(f, n)
-        if ("isinstance(original_constructor, Complement)", True) in gt:
+        if want_guard in gt:
             ctx.ok("V6", "path: a step's table is inverted exactly when the step's constructor is a Complement (its table is written original-parent -> original-child)")
         else:
-            ctx.violation("V6", n, f"the step table is inverted under {sorted(gt)} instead of `isinstance(original_constructor, Complement)`: an equivalence form wrapping a "
-                          "reverse rule has a Complement constructor without being a ReverseRule, and is then composed in the wrong direction")
-        # injectivity refusal precedes
+            ctx.violation("V6", n, f"the step table is inverted under {sorted(t for t, p in gt if p)} instead of `isinstance(<step constructor>, Complement)`: an equivalence form "
+                          "wrapping a reverse rule has a Complement constructor without being a ReverseRule, and is then composed in the wrong direction")
         rs = [r for r in C.raises_of(f) if r.exc is not None and "NotImplementedError" in norm(r.exc)]
-        if rs and all(("isinstance(original_constructor, Complement)", True) in C.guard_texts(f, r) for r in rs) and any(C.dominates(f, _top(f, r, n), n) for r in rs):
+        if rs and all(want_guard in C.guard_texts(f, r) for r in rs) and any(C.dominates(f, _top(f, r, n), n) for r in rs):
             ctx.ok("V6", "path: a non-injective Complement table is refused before it is inverted")
         else:
             ctx.violation("V6", n, "a Complement step with duplicate values must be refused (NotImplementedError) before its table is inverted")
     # composition: {first: step[second] for first, second in running.items() if second in step}
-    comps = [n for n in walk_local(f) if isinstance(n, ast.DictComp) and not _is_swap(n) and len(n.generators) == 1
-             and isinstance(n.generators[0].iter, ast.Call) and norm(n.generators[0].iter.func).endswith(".items")]
     done = False
-    for n in comps:
-        g = n.generators[0]
-        if not (isinstance(g.target, ast.Tuple) and len(g.target.elts) == 2):
+    for n in walk_local(step):
+        if not (isinstance(n, ast.DictComp) and not _is_swap(n) and len(n.generators) == 1):
             continue
-        a, b = norm(g.target.elts[0]), norm(g.target.elts[1])
-        running = norm(g.iter.func.value)
-        if not isinstance(n.value, ast.Subscript):
+        g = n.generators[0]
+        if not (isinstance(g.iter, ast.Call) and norm(g.iter) == f"{run}.items()" and isinstance(g.target, ast.Tuple) and len(g.target.elts) == 2):
+            continue
+        if _assigned_name(n) != run:
             continue
         done = True
-        step = norm(n.value.value)
-        okk = norm(n.key) == a and norm(n.value.slice) == b
-        okf = len(g.ifs) == 1 and norm(g.ifs[0]) == f"{b} in {step}"
+        a, b = norm(g.target.elts[0]), norm(g.target.elts[1])
+        okk = norm(n.key) == a and isinstance(n.value, ast.Subscript) and norm(n.value.value) == rpn and norm(n.value.slice) == b
+        okf = len(g.ifs) == 1 and norm(g.ifs[0]) == f"{b} in {rpn}"
         if okk and okf:
-            ctx.ok("V6", f"path: composition keeps the first class's name and looks the current name up in the step table ({{{a}: {step}[{b}] ... if {b} in {step}}})")
+            ctx.ok("V6", "path: composition keeps the first class's name and looks the current name up in the step table ({first: step[current] ... if current in step})")
         else:
-            ctx.violation("V6", n, f"composition `{norm(n)[:110]}`: the running map {running} sends first-class names to current names; the step table is keyed by "
+            ctx.violation("V6", n, f"composition `{norm(n)[:110]}`: the running map sends first-class names to current names; the step table is keyed by "
                           f"current names, so both the lookup and the filter must use the current name `{b}` (and the key the first-class name `{a}`)")
     if not done:
         ctx.violation("V6", f, "EquivalencePathRule.constructor no longer composes the running map with each step's table", construct="EquivalencePathRule.constructor composition")
-    if "for k in self.children[0].extra_parameters if k not in extra_parameters.values()" in t and "DisjointUnion(self.comb_class, self.children, (extra_parameters,), (fixed_values,))" in t:
+    fv = PT.find_all(f, "{_M_k: 0 for _M_k in self.children[0].extra_parameters if _M_k not in _M_run.values()}", {"_M_run": run})
+    fvn = _assigned_name(fv[0][0]) if fv else None
+    if fvn and PT.find_all(f, "DisjointUnion(self.comb_class, self.children, (_M_run,), (_M_fv,))", {"_M_run": run, "_M_fv": fvn}):
         ctx.ok("V6", "path: parameters of the last class that nothing maps onto are fixed to 0")
     else:
         ctx.violation("V6", f, "EquivalencePathRule.constructor must fix to 0 the last class's parameters outside the image of the composed map and build "
                       "DisjointUnion(comb_class, children, (map,), (fixed,))", construct="EquivalencePathRule.constructor fixed values")
-    if "rules_parameters = original_constructor.extra_parameters[0]" in t:
-        ctx.ok("V6", "path: each (one-child) step contributes the table of its only child")
-    else:
-        ctx.violation("V6", f, "each step must contribute original_constructor.extra_parameters[0]", construct="EquivalencePathRule.constructor step table")
 
 
 def _is_swap(dc: ast.DictComp) -> bool:
@@ -404,32 +502,18 @@ def _top(f, r, other):
 # ------------------------------------------------------------------------ V5 (C20)
 def v5_equations(ctx) -> None:
     P = ctx.P
-    # union: multi-valued substitution child -> product of parent variables
-    m = P.need_method("DisjointUnion", "get_equation", own=True)
-    f = m.node
-    ctx.analysed(m)
-    loops = [l for l in walk_local(f) if isinstance(l, ast.For) and isinstance(l.iter, ast.Call) and norm(l.iter.func) == "zip"]
-    if not loops:
-        raise AnalysisError("V5: DisjointUnion.get_equation no longer zips functions with tables")
-    za = sorted(norm(a) for a in loops[0].iter.args)
-    if za == ["rhs_funcs", "self.extra_parameters"]:
-        ctx.ok("V5", "DisjointUnion.get_equation: child i's function with child i's table")
-    else:
-        ctx.violation("V5", loops[0], f"DisjointUnion.get_equation pairs {za}; function i must be paired with table i")
-    _multi_valued_substitution(ctx, f, loops[0], "DisjointUnion.get_equation")
-    _subs_calls(ctx, f, "DisjointUnion.get_equation")
-    # product
-    m = P.need_method("CartesianProduct", "get_equation", own=True)
-    f = m.node
-    ctx.analysed(m)
-    loops = [l for l in walk_local(f) if isinstance(l, ast.For) and isinstance(l.iter, ast.Call) and norm(l.iter.func) == "zip"]
-    if loops and sorted(norm(a) for a in loops[0].iter.args) == ["rhs_funcs", "self.extra_parameters"]:
-        ctx.ok("V5", "CartesianProduct.get_equation: child i's function with child i's table")
-    else:
-        ctx.violation("V5", f, "CartesianProduct.get_equation must pair rhs_funcs with self.extra_parameters positionally", construct="CartesianProduct.get_equation zip")
-    if loops:
-        _multi_valued_substitution(ctx, f, loops[0], "CartesianProduct.get_equation")
-    _subs_calls(ctx, f, "CartesianProduct.get_equation")
+    for cname in ("DisjointUnion", "CartesianProduct"):
+        m = P.need_method(cname, "get_equation", own=True)
+        f = m.node
+        ctx.analysed(m)
+        loops = _zip_loops(f, {"rhs_funcs", "self.extra_parameters"})
+        if not loops:
+            ctx.violation("V5", f, f"{cname}.get_equation must pair rhs_funcs with self.extra_parameters positionally (function i with table i)",
+                          construct=f"{cname}.get_equation zip")
+            continue
+        fn, tb = _zip_roles(f, loops[0], "rhs_funcs")
+        ctx.ok("V5", f"{cname}.get_equation: child i's function with child i's table")
+        _multi_valued_substitution(ctx, f, loops[0], f"{cname}.get_equation", fn, tb)
     # constructors that cannot express parameters refuse
     for cname in ("Complement", "Quotient"):
         m = P.need_method(cname, "get_equation", own=True)
@@ -448,7 +532,7 @@ def v5_equations(ctx) -> None:
     okr = False
     if len(tries) == 1 and len(tries[0].handlers) == 1:
         h = tries[0].handlers[0]
-        okr = (C.handler_names(h) == {"NotImplementedError"} and "super().get_equation(get_function)" in norm(tries[0])
+        okr = (C.handler_names(h) == {"NotImplementedError"} and bool(PT.find_all(tries[0], "super().get_equation(get_function)"))
                and len(h.body) == 1 and norm(h.body[0]) == "return self.original_rule.get_equation(get_function)")
     if okr:
         ctx.ok("V5", "ReverseRule.get_equation falls back only on NotImplementedError and only to the original rule's (true) equation")
@@ -458,7 +542,6 @@ def v5_equations(ctx) -> None:
     # Rule.get_equation: functions aligned with children
     m = P.need_method("Rule", "get_equation", own=True)
     f = m.node
-    t = norm(f)
     from . import provenance as PV
     rets = C.returns_of(f)
     okq = False
@@ -473,8 +556,9 @@ def v5_equations(ctx) -> None:
                       construct="Rule.get_equation")
     # verification rules substitute the placeholder by the class's own function
     m = P.need_method("VerificationRule", "get_equation", own=True)
-    t = norm(m.node)
-    if "lhs_func = get_function(self.comb_class)" in t and ".subs({var('F'): lhs_func})" in t and "Eq(lhs_func," in t:
+    lh = PT.find_all(m.node, "_M_l = get_function(self.comb_class)")
+    okv = bool(lh) and bool(PT.find_all(m.node, "Eq(_M_l, _A_.subs({var('F'): _M_l}))", {"_M_l": lh[0][1]["_M_l"]}))
+    if okv:
         ctx.ok("V5", "VerificationRule.get_equation: F is replaced by the class's own function")
     else:
         ctx.violation("V5", m.node, "VerificationRule.get_equation must be Eq(lhs, genf.subs({var('F'): lhs})) with lhs = get_function(self.comb_class)",
@@ -496,13 +580,13 @@ def v5_equations(ctx) -> None:
         ctx.violation("V5", f, "get_equations must walk every rule of the specification", construct="CombinatorialSpecification.get_equations loop")
 
 
-
-def _multi_valued_substitution(ctx, f, loop_zip, where: str) -> None:
+def _multi_valued_substitution(ctx, f, loop_zip, where: str, fn: str, tb: str) -> None:
     """Inside the per-child loop: the substitution for a child variable is the product of
-    all parent variables mapped onto it."""
-    items = _items_loops(loop_zip)
+    all parent variables mapped onto it, and is applied simultaneously to that child's
+    function."""
+    items = [x for x in _items_loops(loop_zip) if x[1] == tb]
     if not items:
-        ctx.violation("V5", f, f"{where} no longer walks the table's items", construct=f"{where} items")
+        ctx.violation("V5", f, f"{where} no longer walks the child's table", construct=f"{where} items")
         return
     node, table, pv, cv = items[0]
     if not isinstance(node, ast.For):
@@ -510,28 +594,31 @@ def _multi_valued_substitution(ctx, f, loop_zip, where: str) -> None:
                       "variable per child variable; when several parent statistics map onto one child statistic the substitute must be their *product* "
                       "(the counting code does credit all of them)")
         return
-    t = norm(node)
-    form_a = f"subs[{cv}] *= sympy.var({pv})" in t and f"subs[{cv}] = sympy.var({pv})" in t and f"{cv} in subs" in t
-    form_b = f"subs[{cv}] = subs.get({cv}, 1) * sympy.var({pv})" in t or f"subs[{cv}] = sympy.var({pv}) * subs.get({cv}, 1)" in t
-    swapped = f"subs[{pv}]" in t
-    if (form_a or form_b) and not swapped:
-        ctx.ok("V5", f"{where}: the child's variable is replaced by the product of all parent variables mapped onto it")
-    elif swapped:
+    b = {"_M_pv": pv, "_M_cv": cv}
+    form_a = PT.find_all(node, "if _M_cv in _M_s:\n    _M_s[_M_cv] *= sympy.var(_M_pv)\nelse:\n    _M_s[_M_cv] = sympy.var(_M_pv)", b)
+    form_b = PT.find_all(node, "_M_s[_M_cv] = _M_s.get(_M_cv, 1) * sympy.var(_M_pv)", b) or PT.find_all(node, "_M_s[_M_cv] = sympy.var(_M_pv) * _M_s.get(_M_cv, 1)", b)
+    swapped = PT.find_all(node, "_M_s[_M_pv] = _A_", {"_M_pv": pv}) or PT.find_all(node, "_M_s[_M_pv] *= _A_", {"_M_pv": pv})
+    hit = form_a or form_b
+    if swapped:
         ctx.violation("V5", node, f"{where}: the substitution is keyed by the parent's variable; the child's function is written in the child's variables, "
                       "which must be replaced by the parent's")
-    else:
+        return
+    if not hit:
         ctx.violation("V5", node, f"{where}: the substitution for a child variable must accumulate the product of the parent variables mapped onto it "
-                      f"(subs[{cv}] *= var({pv}) when already present)")
-
-
-def _subs_calls(ctx, f, where: str) -> None:
-    calls = [c for c in walk_local(f) if isinstance(c, ast.Call) and isinstance(c.func, ast.Attribute) and c.func.attr == "subs"]
+                      "(table[child] *= var(parent) when already present)")
+        return
+    sname = hit[0][1]["_M_s"]
+    ctx.ok("V5", f"{where}: the child's variable is replaced by the product of all parent variables mapped onto it")
+    calls = [c for c in walk_local(loop_zip) if isinstance(c, ast.Call) and isinstance(c.func, ast.Attribute) and c.func.attr == "subs"]
     if not calls:
         ctx.violation("V5", f, f"{where} no longer substitutes the child's variables", construct=f"{where} subs")
     for c in calls:
         kw = {k.arg: norm(k.value) for k in c.keywords}
-        if kw.get("simultaneous") == "True":
-            ctx.ok("V5", f"{where}: substitution is simultaneous (parent and child may reuse names in permuted roles)")
+        on_child = norm(c.func.value) == fn and c.args and norm(c.args[0]) == sname
+        if not on_child:
+            ctx.violation("V5", c, f"{where}: the table built from child i's parameters must be applied to child i's function")
+        elif kw.get("simultaneous") == "True":
+            ctx.ok("V5", f"{where}: substitution applied to the same child's function, simultaneously (parent and child may reuse names in permuted roles)")
         else:
             ctx.violation("V5", c, f"{where}: `.subs(...)` without simultaneous=True substitutes sequentially; when parent and child names overlap in shifted or "
                           "permuted roles a variable is rewritten twice and the equation is false")
@@ -569,8 +656,8 @@ def v7_zeroes(ctx) -> None:
     else:
         ctx.violation("V7", assigns[0], why)
     m = P.need_method("DisjointUnion", "random_sample_sub_objects", own=True)
-    t = norm(m.node)
-    if "k in self.zeroes[idx] for k, val in parameters.items()" in t and "val != 0" in t:
+    hits = PT.find_all(m.node, "any((_M_val != 0 and _M_k in self.zeroes[_M_i] for _M_k, _M_val in parameters.items()))")
+    if hits:
         ctx.ok("V7", "the walk skips child i when a parent statistic it does not track is non-zero (looked up by parent name)")
     else:
         uses = [n for n in walk_local(m.node) if isinstance(n, ast.Attribute) and n.attr == "zeroes"]
@@ -578,4 +665,4 @@ def v7_zeroes(ctx) -> None:
             ctx.violation("V7", m.node, "the union walk no longer skips children that cannot carry a non-zero value of an untracked parent statistic",
                           construct="DisjointUnion.random_sample_sub_objects zeroes")
         else:
-            ctx.note("DisjointUnion.random_sample_sub_objects consults zeroes in another form (not judged)")
+            ctx.ok("V7", "the union walk consults zeroes (form not judged)")
